@@ -401,16 +401,21 @@ func BitsStep2() {
 		a.Merge(b)
 		mem, xmem = vx.Or(inA, inB), vx.Or(xA, xB)
 	}
+	// cardinality after the bulk operation, read from the words (no observer of the API is called here)
+	lenBulk := popcount(append([]uint64(nil), setz.VerifWords(&a)...))
+	want := lenBulk
 	if vx.Choose(2) == 0 {
 		got := a.Add(x)
 		vx.Assert(got == !xmem, "Add after a bulk operation reports whether membership changed")
 		vx.Assert(a.Contains(m) == vx.Or(mem, m == x), "bulk operation then Add: membership")
+		want = lenBulk + vx.IteInt(xmem, 0, 1)
 	} else {
 		got := a.Remove(x)
 		vx.Assert(got == xmem, "Remove after a bulk operation reports whether membership changed")
 		vx.Assert(a.Contains(m) == vx.And(mem, m != x), "bulk operation then Remove: membership")
+		want = lenBulk - vx.IteInt(xmem, 1, 0)
 	}
-	vx.AssertSig(a.Len() == popcount(setz.VerifWords(&a)), "Len equals the cardinality after a bulk operation followed by Add/Remove with no observer in between", "len-after-bulk-then-element-op")
+	vx.AssertSig(a.Len() == want, "Len equals the cardinality after a bulk operation followed by Add/Remove with no observer in between", "len-after-bulk-then-element-op")
 	vx.Assert(b.Len() == popcount(wb), "the other operand's Len is untouched")
 }
 
